@@ -419,7 +419,7 @@ func (c *Ctx) geRun() []*geVerdict {
 	// the sentences of the parser families
 	for _, f := range gxFamilies(false) {
 		switch f.name {
-		case "operator-pairs", "equal-level-chains", "prefix-postfix-call-index-against-binary", "calls-index-grouping", "nested-calls", "spacing-comments-case":
+		case "operator-pairs", "equal-level-chains", "prefix-postfix-call-index-against-binary", "calls-index-grouping", "nested-calls", "spacing-comments-case", "long-flat-and-deep-sentences":
 			// (the last one: white-space and comment tokens anywhere, keywords in any letter case - the value is that of the bare token string)
 			for _, it := range f.items {
 				if strings.Contains(strings.ToUpper(it), "LIKE") {
@@ -507,7 +507,8 @@ func (c *Ctx) geRun() []*geVerdict {
 						}
 					}
 					// a failing operation ends the evaluation with its error, and the next evaluation is unaffected
-					if len(wantTrace) > 0 && r.bad == "" && i%3 == 0 {
+					// (not for the long sentences: one failing run per operation of a 130-operand chain adds nothing)
+					if len(wantTrace) > 0 && r.bad == "" && i%3 == 0 && it.fam != "long-flat-and-deep-sentences" {
 						for k := 1; k <= len(wantTrace) && r.bad == ""; k++ {
 							failed := h.evaluate(ls, k, false)
 							if failed.kind == "ok" {
